@@ -25,7 +25,7 @@ import (
 
 func init() {
 	vh.QuietLogs(logger.FatalLevel)
-	defs.IntermediateChannelTimeout = 2 * time.Second
+	defs.IntermediateChannelTimeout = 60 * time.Second // production value; in the buffer it only bounds the give-up of Destroy. Accept must not depend on it: the 20 s watchdog below is far shorter
 	defs.ForwarderBatchAckTimeout = 500 * time.Millisecond
 	defs.BufferShutDownTimeout = 300 * time.Millisecond
 }
